@@ -84,6 +84,8 @@ class Profiles(object):
         self.sites = {}
         for cls in repo.classes(PB):
             for fn in [m for m in cls.body if isinstance(m, ast.FunctionDef)]:
+                if repo.absorbed('%s:%s.%s' % (PB, cls.name, fn.name)):
+                    continue      # a new helper, already inlined into the methods that use it
                 created = []
                 for n in ast.walk(fn):
                     if isinstance(n, ast.Assign) and isinstance(n.value, ast.Call) and call_attr(n.value) == 'new' and n.value.args \
